@@ -27,6 +27,11 @@ var commonAssumptions = []string{
 }
 
 var props = map[string]propCfg{
+	"C04": {
+		QuickBatches: 8, ThoroughBatches: 64, Parallel: 16, Level: "exploration", Floor: 500,
+		Rule: "random well-formed MSM4/MSM7 descriptions for all 14 types (cycled): mask shapes empty-satellite, empty-signal, 1x1, 1xk, 64x1, nx1, 32x2, 2x32, nxm with n*m<=64; cell masks all-ones / single one / sparse rows / dense / random; field styles random / all-zero / all-ones / invalid markers and neighbours / zero lock+half+CNR tails; multiple-message flag set only when a cell is present. Each description is encoded by the independent encoder at several padding sizes (0, small, 0..13, up to the 1023-byte limit) and decoded through the decoder package and through handler.GetMessage+Analyse; every exported header, satellite-cell and signal-cell field, the satellite/signal lists, the cell matrix and each cell's (satellite, signal id) attachment are compared with the description, so results at different paddings are compared with each other through it. The encoder itself is validated at every run by reproducing the captured real-receiver MSM frames bit for bit. Non-trivial: >=2 signal cells, or a zero-valued cell field, or >=3 padding bytes. Distinct by hash of (description, paddings).",
+		Assumptions: commonAssumptions,
+	},
 	"C07": {
 		QuickBatches: 16, ThoroughBatches: 128, Parallel: 16, Level: "exploration", Floor: 1000,
 		Rule:        "(1) CRC-valid frames for each of 19 type numbers (1005, 1006, the 14 MSM types, 1230, 1, 4095) x EVERY payload length 1..1023 x payload shapes (uniform random, sparse, all ones, plausible header with few mask bits, masks announcing 65..2048 cells, zeros), plus all 256 one-byte payloads; (2) well-formed 1005/1006/MSM bodies (independent encoder) truncated at every byte position, with mask bits forced upward, and with illegal timestamps; (3) arbitrary streams through the stream handler (all 0xD3, maximal length claims with short data, random up to 20 kB / 1 MB, hostile mixes). Each frame goes through single-frame decoding, Copy, String, Analyse, PrepareForDisplay and String again at both log levels under recover(); streams run on the handler's own goroutine so a panic there ends the child and is attributed to the on-disk witness. A case that runs for 60 s (>10^4 x median) is re-run alone and only then called a hang. Non-trivial: a CRC-valid frame of a decodable type shorter than / inconsistent with its layout, or a hostile stream. Distinct by hash of the bytes.",
